@@ -30,6 +30,11 @@ AltRand(n, s) ==
   \* LIST.GET of an empty record: "LIST.GET followed by execution" moves nothing either way - the empty list on EXEC or not
   ELSE IF n = "LIST.GET" /\ Has(s, "int", 1) /\ s.code # <<>> /\ s.code[Clamp(s.int[1], Len(s.code)) + 1] = EmptyList
   THEN <<Unfired(PopN(s, "int", 1))>>
+  \* INTVECTOR.LOOP taking the LAST element: what is queued under the body unfolds to nothing either way - the re-armed loop
+  \* over the empty rest (the implementation) or an empty list; C06 speaks of the body's runs and of what is left at the end
+  ELSE IF n = "INTVECTOR.LOOP" /\ Has(s, "ivec", 1) /\ Has(s, "exec", 1) /\ Len(s.ivec[1]) = 1
+  THEN LET s2 == PopN(PopN(s, "ivec", 1), "exec", 1) IN
+       <<Fired(PushOn(SetF(s2, "exec", <<s.exec[1], EmptyList>> \o s2.exec), "int", s.ivec[1][1]))>>
   ELSE <<>>
 
 ApplyRand(n, s) ==
